@@ -249,6 +249,38 @@ def listings(ctx):
                               % (in_fmt, out_fmt, got[0], want[0]), rp)
             elif got[0] == 'ok' and open(out).read() != open(ref).read():
                 ctx.violation('cli.convert-basis', 'file:formats', 'convert-basis --in-fmt %s --out-fmt %s writes something else than convert_formatted_basis_file' % (in_fmt, out_fmt), rp)
+        # an input file that parses but fails validation (a primitive no contraction uses; a contraction listed twice): the
+        # command line refuses it exactly when convert_formatted_basis_file does, and writes nothing then
+        good = bse.get_basis('cc-pvdz', elements=[6], fmt='nwchem', header=False).split('\n')
+        bad1 = [l for l in good]
+        rows = [i for i, l in enumerate(bad1) if len(l.split()) == 4 and all(c in '0123456789.-+eE' for c in ''.join(l.split()))]
+        if rows:
+            i = rows[0]
+            x = bad1[i].split()
+            bad1[i] = '      %s      0.0000000      0.0000000      0.0000000' % x[0]
+        bad2 = []
+        for l in good:
+            x = l.split()
+            bad2.append(l + '      ' + x[1] if len(x) == 4 and all(c in '0123456789.-+eE' for c in ''.join(x)) else l)
+        for tag, lines in (('unused-primitive', bad1), ('duplicate-contraction', bad2)):
+            src2 = os.path.join(d, 'invalid_%s.nw' % tag)
+            with open(src2, 'w') as f:
+                f.write('\n'.join(lines))
+            out, ref = os.path.join(d, 'inv_cli_%s.gbs' % tag), os.path.join(d, 'inv_api_%s.gbs' % tag)
+            got = run_cli(['convert-basis', src2, out])
+            want = impl.call(convert.convert_formatted_basis_file, src2, ref)
+            ctx.case(('convert-invalid', tag), True, 'convert-basis:invalid-input')
+            rp = {'kind': 'cli', 'argv': ['convert-basis', 'invalid:' + tag]}
+            if (got[0] == 'ok') != (want[0] == 'ok'):
+                ctx.violation('cli.convert-basis', 'outcome:invalid-input', 'convert-basis on an input file with %s: command line %s, convert_formatted_basis_file %s'
+                              % (tag, got[0], want[0] if want[0] == 'ok' else want[1]), rp)
+            elif os.path.exists(out) != os.path.exists(ref):
+                ctx.violation('cli.convert-basis', 'file:invalid-input', 'convert-basis on an input file with %s: output file written by one and not by the other' % tag, rp)
+        # a format that cannot express some function type of the basis: what counts are the types of the SELECTED elements
+        for nm, fmt2, els2 in (('def2-svp', 'fhiaims', 'H-Ne'), ('def2-svp', 'veloxchem', '1-10'), ('6-31g*', 'veloxchem', 'H,He'), ('def2-svp', 'fhiaims', 'Rb'),
+                               ('lanl2dz', 'veloxchem', 'H-Ne')):
+            argv = ['get-basis', nm, fmt2, '--elements=' + els2, '--noheader']
+            expect(ctx, argv, impl.call(bse.get_basis, nm, fmt=fmt2, elements=els2, header=False), 'get-basis', 'get-basis:format-gate', {'kind': 'cli', 'argv': argv})
         for sub, f in (('autoaux-basis', manip.autoaux_basis), ('autoabs-basis', manip.autoabs_basis)):
             for which, in_fmt in (('nwchem', 'nwchem'), ('cfour', 'genbas'), ('cfour', 'CFOUR')):
                 out = os.path.join(d, sub + in_fmt + '.out')
